@@ -327,6 +327,11 @@ func run(t *testing.T, plan any, keep bool) *simcheck.Outcome {
 							out.Violate("lock-kept-after-close", "%s %s: Close returned (%v) but the descriptor still holds the lock", tag, what, cerr)
 						}
 						if op.DoubleClose {
+							// other goroutines get to run (and to reuse the descriptor number) before
+							// the redundant second Close, which must fail and change nothing
+							for k := 0; k <= op.Hold; k++ {
+								simrt.Yield("before-second-close")
+							}
 							if err2 := f.Close(); err2 == nil {
 								out.Violate("double-close", "%s: second Close returned nil", tag)
 							}
